@@ -50,6 +50,12 @@ def parser_fields(ctx):
     for f in [x["name"] for x in facts.struct_fields(conn.HC)]:
         if f in BASE_FIELDS or f in NOT_PARSER_STATE:
             continue
+        if (conn.HC, f) in facts.embeds:
+            # a private sub-struct grouping frozen fields: its members are judged under their frozen names
+            roles = [r for (S_, _f), (P_, r) in facts.aliases.items() if S_ == facts.embeds[(conn.HC, f)]]
+            ctx.ob("R11.1", "grouped-field|%s" % f, True, "HttpConnection.%s groups the frozen fields %s" % (f, sorted(roles)))
+            if all(r in NOT_PARSER_STATE for r in roles):
+                continue
         read_side = False
         for w in field_writers(facts, conn.HC, f):
             if w[0] == conn.P + "new":
